@@ -99,7 +99,8 @@ def d1_dead_marker(ctx):
                     continue
                 stores = [s for s in st.body if isinstance(s, ast.Assign) and len(s.targets) == 1
                           and isinstance(s.targets[0], ast.Subscript)]
-                if len(stores) != len(st.body) or not stores:
+                rest = [s for s in st.body if not any(s is x for x in stores)]
+                if not stores or not all(isinstance(s, (ast.Continue, ast.Break, ast.Return, ast.Raise)) for s in rest):
                     continue
                 blk, _ = au.enclosing_block(st)
                 if not blk:
@@ -108,7 +109,7 @@ def d1_dead_marker(ctx):
                 i = [id(x) for x in blk].index(id(st))
                 nxt = blk[i + 1] if i + 1 < len(blk) else None
                 dead = None
-                if isinstance(nxt, ast.Assign) and len(nxt.targets) == 1:
+                if not rest and isinstance(nxt, ast.Assign) and len(nxt.targets) == 1:
                     for s in stores:
                         if au.same(s.targets[0], nxt.targets[0]) and \
                                 not any(au.same(x, nxt.targets[0]) for x in au.walk(nxt.value)
